@@ -259,6 +259,7 @@ func c06Stream(t *rapid.T) *streamModel {
 	o := defaultStreamOpts()
 	o.maxPESPIDs, o.maxPMTPIDs, o.maxUnits, o.maxPESLen, o.smallPSI = 3, 1, 4, 1400, true
 	o.noise = gen.Bool(t, "noise")
+	o.emptyInUnit = true
 	return drawStream(t, o)
 }
 
